@@ -154,18 +154,25 @@ func vc12Seeds(dir string, rng *vh.Rng) ([]c12h.Seed, error) {
 		}
 		data, err := vc12Write(dir, i, sh.meta, sigs)
 		if err != nil {
-			return nil, err
+			return seeds, err
 		}
 		r, err := NewReader(bytes.NewReader(data))
 		if err != nil {
-			return nil, fmt.Errorf("seed %d does not open: %v", i, err)
+			c12h.SkipSeed(fmt.Sprintf("seed %d", i), fmt.Sprintf("does not open: %v", err))
+			continue
 		}
 		var keys [][]byte
+		answers := true
 		for _, s := range sigs {
 			if ok, err := r.Has(s); err != nil || !ok {
-				return nil, fmt.Errorf("seed %d: stored signature not found: %v", i, err)
+				c12h.SkipSeed(fmt.Sprintf("seed %d", i), fmt.Sprintf("stored signature not found: %v", err))
+				answers = false
+				break
 			}
 			keys = append(keys, append([]byte(nil), s[:]...))
+		}
+		if !answers {
+			continue
 		}
 		// absent: a stored prefix with other bytes, and a prefix that is not stored
 		a1 := rng.Bytes(64)
